@@ -711,6 +711,37 @@ def leafDeletes (pl : Plugin) (pfx : Option PathMsg) : List PathMsg → Except F
     | .error e => .error e
     | .ok _ => leafDeletes pl pfx r
 
+/-- the local merge of the change context: the number of merged update paths, if a context with
+    operations was given -/
+def leafMerge (abs : Abs) (pl : Plugin) (change : Option SetReq) : Except Fail (Option Nat) :=
+  match change with
+  | none => .ok none
+  | some ch =>
+    if ch.update.length + ch.replace.length + ch.delete.length > 0 then
+      match leafUpdates abs pl ch.pfx (ch.update ++ ch.replace) [] with
+      | .error e => .error e
+      | .ok ups =>
+        match leafDeletes pl ch.pfx ch.delete with
+        | .error e => .error e
+        | .ok () =>
+          match pathsValid (ups.map Prod.fst) with
+          | .error (.refused _ c) => .error (.refused .unknown c)    -- returned bare, not as a status
+          | .error e => .error e
+          | .ok () => .ok (some ups.length)
+    else .ok none
+
+/-- `config.Values[path] = value` for the merged updates, then the rendering -/
+def leafTail (n : Option Nat) (cs : CfgState) : Except Fail LeafSelOutcome :=
+  let writes := match n with
+    | some k => decide (k > 0)
+    | none => false
+  if writes then
+    match cs with
+    | .empty => .error (.panic .nilMapWrite)     -- assignment to an entry of a nil map
+    | .values => .ok .reached
+    | .touched => .ok .either
+  else .ok .reached
+
 /-- `LeafSelectionQuery` -/
 def handleLeafSel (abs : Abs) (st : NBState) (req : LeafSelReq) : Except Fail LeafSelOutcome :=
   match mapGet (configID req.target req.type req.version) st.configs with
@@ -719,40 +750,15 @@ def handleLeafSel (abs : Abs) (st : NBState) (req : LeafSelReq) : Except Fail Le
     match pluginGet (req.type, req.version) st.env.plugins with
     | none => .error (.refused .invalidArgument .noPlugin)
     | some pl =>
-      let merged : Except Fail (Option Nat) :=      -- number of merged updates, if a context was given
-        match req.change with
-        | none => .ok none
-        | some ch =>
-          if ch.update.length + ch.replace.length + ch.delete.length > 0 then
-            match leafUpdates abs pl ch.pfx (ch.update ++ ch.replace) [] with
-            | .error e => .error e
-            | .ok ups =>
-              match leafDeletes pl ch.pfx ch.delete with
-              | .error e => .error e
-              | .ok () =>
-                match pathsValid (ups.map Prod.fst) with
-                | .error (.refused _ c) => .error (.refused .unknown c)    -- returned bare, not as a status
-                | .error e => .error e
-                | .ok () => .ok (some ups.length)
-          else .ok none
-      match merged with
+      match leafMerge abs pl req.change with
       | .error e => .error e
-      | .ok n =>
-        let writes := match n with
-          | some k => decide (k > 0)
-          | none => false
-        if writes then
-          match cs with
-          | .empty => .error (.panic .nilMapWrite)     -- config.Values[path] = value on a nil map
-          | .values => .ok .reached
-          | .touched => .ok .either
-        else .ok .reached
+      | .ok n => leafTail n cs
+
+def capStep (acc : List Str) (kp : (Str × Str) × Plugin) : List Str :=
+  if acc.contains (kp.2.name ++ '!' :: kp.2.version) then acc else (kp.2.name ++ '!' :: kp.2.version) :: acc
 
 /-- `Capabilities`: the number of distinct (name, version) models of the registered plugins -/
-def handleCapabilities (st : NBState) : Nat :=
-  (st.env.plugins.foldl (fun acc kp =>
-    let k := kp.2.name ++ '!' :: kp.2.version
-    if acc.contains k then acc else k :: acc) ([] : List Str)).length
+def handleCapabilities (st : NBState) : Nat := (st.env.plugins.foldl capStep []).length
 
 /-- `GetTransaction` by index -/
 def handleGetTx (st : NBState) (index : Nat) : Except Fail Unit :=
